@@ -20,7 +20,8 @@ type Instance struct {
 	Envelopes []int `json:"envelopes"` // seqs of write events with this id while it was live
 
 	LiveAtReadError bool `json:"liveAtReadError,omitempty"`
-	CollidedBy      int  `json:"collidedBy,omitempty"` // 1+k of a mutate message with the same id read while live
+	PriorSameID     bool `json:"priorSameId,omitempty"` // an earlier subscription or mutation used the same id
+	CollidedBy      int  `json:"collidedBy,omitempty"`  // 1+k of a mutate message with the same id read while live
 }
 
 // Anomaly is a rule hit found while replaying the log. Which anomalies are
@@ -98,6 +99,23 @@ func Analyze(events []Event, meta []MsgMeta, max int) *Analysis {
 	live := map[string]*Instance{}
 	openMut := map[string]int{}
 	mutIDs := map[string]bool{}
+	usedIDs := map[string]bool{}
+	lastInst := map[string]*Instance{} // id -> most recent instance with that id
+	// origin guesses which subscription an anomalous envelope for id comes
+	// from: a subscription whose map entry was overwritten by a colliding
+	// mutate (its rerunner is the one nobody can stop) if there is one, else
+	// the one that ended last, else the most recent one.
+	origin := func(id string, ended map[string]*Instance) *Instance {
+		for _, inst := range a.Instances {
+			if inst.ID == id && inst.CollidedBy != 0 {
+				return inst
+			}
+		}
+		if inst := ended[id]; inst != nil {
+			return inst
+		}
+		return lastInst[id]
+	}
 	deadSince := map[string]int{}        // id -> seq of unsub-processed, until re-subscribed
 	endedIDs := map[string]*Instance{}   // id -> instance that ended, until a message with that id is read
 	pendingLog := map[string]*Instance{} // id -> ended instance that still lacks its logger Unsubscribe
@@ -129,6 +147,7 @@ func Analyze(events []Event, meta []MsgMeta, max int) *Analysis {
 			switch e.Type {
 			case "mutate":
 				mutIDs[e.ID] = true
+				usedIDs[e.ID] = true
 				openMut[e.ID]++
 				if inst := live[e.ID]; inst != nil && inst.CollidedBy == 0 {
 					inst.CollidedBy = 1 + e.K
@@ -175,7 +194,8 @@ func Analyze(events []Event, meta []MsgMeta, max int) *Analysis {
 			a.CtxCancelSeq = e.Seq
 		case EvLogSub:
 			m := metaOf(curK)
-			inst := &Instance{ID: e.ID, MsgK: curK, SubSeq: e.Seq, EndSeq: -1, UnsubLogSeq: -1}
+			inst := &Instance{ID: e.ID, MsgK: curK, SubSeq: e.Seq, EndSeq: -1, UnsubLogSeq: -1, PriorSameID: usedIDs[e.ID]}
+			usedIDs[e.ID] = true
 			if curK < 0 || m.Type != "subscribe" || m.ID != e.ID {
 				a.anomaly("subscribe-log-outside-window", e.Seq, e.ID, nil, "logger Subscribe outside the handle window of a subscribe message with that id")
 			} else {
@@ -186,6 +206,7 @@ func Analyze(events []Event, meta []MsgMeta, max int) *Analysis {
 				end(old, e.Seq, "superseded", "")
 			}
 			live[e.ID] = inst
+			lastInst[e.ID] = inst
 			delete(endedIDs, e.ID)
 			a.Instances = append(a.Instances, inst)
 			if inst.Tag != "" {
@@ -248,19 +269,19 @@ func Analyze(events []Event, meta []MsgMeta, max int) *Analysis {
 				inst.Envelopes = append(inst.Envelopes, e.Seq)
 			}
 			if served {
-				a.anomaly("write-after-serve-return", e.Seq, id, endedIDs[id], e.Type)
+				a.anomaly("write-after-serve-return", e.Seq, id, origin(id, endedIDs), e.Type)
 			}
 			if inst == nil {
-				if ended := endedIDs[id]; ended != nil && !served && e.Type != "echo" && !(openMut[id] > 0 && e.Type != "update") {
-					a.anomaly("envelope-after-end", e.Seq, id, ended, e.Type+" envelope for an id whose subscription ended at "+fmt.Sprint(ended.EndSeq))
+				if ended := endedIDs[id]; ended != nil && !served && e.Type != "echo" && !(openMut[id] > 0 && e.Type != "update") && !(sync && e.Type == "error") {
+					a.anomaly("envelope-after-end", e.Seq, id, origin(id, endedIDs), e.Type+" envelope for an id whose subscription ended at "+fmt.Sprint(ended.EndSeq))
 				}
 			}
 			switch e.Type {
 			case "update":
 				if since, dead := deadSince[id]; dead {
-					a.anomaly("update-after-unsub-processed", e.Seq, id, endedIDs[id], fmt.Sprintf("update for %q after its unsubscribe was processed at %d", id, since))
+					a.anomaly("update-after-unsub-processed", e.Seq, id, origin(id, endedIDs), fmt.Sprintf("update for %q after its unsubscribe was processed at %d", id, since))
 				} else if inst == nil {
-					a.anomaly("update-for-dead-id", e.Seq, id, endedIDs[id], "update for an id with no live subscription")
+					a.anomaly("update-for-dead-id", e.Seq, id, origin(id, endedIDs), "update for an id with no live subscription")
 				}
 			case "result":
 				if openMut[id] > 0 {
@@ -315,6 +336,19 @@ func (a *Analysis) Updates(inst *Instance) []interface{} {
 		e := a.Events[s]
 		if e.Type == "update" && e.Note == "" {
 			out = append(out, e.Msg)
+		}
+	}
+	return out
+}
+
+// ClientLive returns the instances the client must still consider live: not
+// ended, or ended by the server (logger Unsubscribe) for no reason visible to
+// the client - no unsubscribe of its own, no error envelope, no close.
+func (a *Analysis) ClientLive() []*Instance {
+	var out []*Instance
+	for _, inst := range a.Instances {
+		if inst.EndSeq < 0 || (inst.EndKind == "log-unsub" && inst.EndCause == "unexplained") {
+			out = append(out, inst)
 		}
 	}
 	return out
